@@ -18,7 +18,7 @@ pub struct Case {
 
 pub struct C19;
 
-pub const HOSTS: &[&str] = &["row", "frac", "sup", "sqrt", "nested", "leaf", "sub", "table-cell", "inner-of-properties-only-row"];
+pub const HOSTS: &[&str] = &["row", "frac", "sup", "sqrt", "nested", "leaf", "sub", "table-cell", "inner-of-properties-only-row", "row-arg-and-empty-row", "row-arg-between-phantom-and-blank", "row-two-args-and-contentless"];
 
 /// the expression: the host element carries the intent; operands are distinct literals with arg names a, b, c
 pub fn build(host: u8, intent: Option<&str>, lits: &[String]) -> (MNode, Vec<String>) {
@@ -32,6 +32,11 @@ pub fn build(host: u8, intent: Option<&str>, lits: &[String]) -> (MNode, Vec<Str
         "sqrt" => (MNode::el("msqrt", vec![arg(MNode::mn(&l(0)), "a")]), vec!["a".into()]),
         "nested" => (MNode::row(vec![arg(MNode::mn(&l(0)), "a"), MNode::mo("×"), MNode::row(vec![MNode::mo("("), arg(MNode::mn(&l(1)), "b"), MNode::mo("−"), arg(MNode::mn(&l(2)), "c"), MNode::mo(")")])]), vec!["a".into(), "b".into(), "c".into()]),
         "leaf" => (MNode::mi("q"), vec![]),
+        // rows whose other children have no content (what an editor's unfilled slots or layout helpers leave behind):
+        // they vanish during clean-up, the row and its intent must not
+        "row-arg-and-empty-row" => (MNode::row(vec![arg(MNode::mn(&l(0)), "a"), MNode::el("mrow", vec![])]), vec!["a".into()]),
+        "row-arg-between-phantom-and-blank" => (MNode::row(vec![MNode::el("mphantom", vec![MNode::mi("z")]), arg(MNode::mn(&l(0)), "a"), MNode::mtext(" ")]), vec!["a".into()]),
+        "row-two-args-and-contentless" => (MNode::row(vec![arg(MNode::mn(&l(0)), "a"), MNode::mo("+"), MNode::el("mspace", vec![]).attr("width", "1em"), arg(MNode::mn(&l(1)), "b"), MNode::el("mrow", vec![])]), vec!["a".into(), "b".into()]),
         // the generated intent sits on a leaf inside a row that itself has a properties-only intent
         "inner-of-properties-only-row" => {
             let mut inner = MNode::mi("y");
@@ -302,6 +307,6 @@ impl Property for C19 {
         (60000, 600000)
     }
     fn rule(&self) -> String {
-        "cases = intent strings from a generator of the grammar in infer_intent.rs (names, numbers, $refs, :properties, nested / chained applications), single-edit mutants of those (delete / insert / duplicate / truncate / replace / swap), arbitrary Unicode and hand-picked edge strings, and the honoured forms name($a,..), chained name($a)($b)($c), nested name(other($a),$b) and name($a)(7)(..) with made-up names; placed on 8 kinds of host element inside x = HOST whose operands are distinct decimal literals carrying arg=a,b,c; both values of IntentErrorRecovery; oracle = no panic; IgnoreIntent: speech is Ok, and for strings that a reference recogniser classifies as certainly illegal (blank, unbalanced parentheses, punctuation where a name must start, missing argument, $ without name, dangling $ref) it equals the speech with the attribute removed; Error: certainly illegal strings yield Err; honoured form: speech mentions the name and every referenced literal; speech is repeatable and get_navigation_mathml afterwards equals the MathML returned by set_mathml; non-trivial = illegal with >= 2 structural characters, or legal with a $ref inside an application".into()
+        "cases = intent strings from a generator of the grammar in infer_intent.rs (names, numbers, $refs, :properties, nested / chained applications), single-edit mutants of those (delete / insert / duplicate / truncate / replace / swap), arbitrary Unicode and hand-picked edge strings, and the honoured forms name($a,..), chained name($a)($b)($c), nested name(other($a),$b) and name($a)(7)(..) with made-up names; placed on 12 kinds of host element (rows, 2-D elements, a leaf, a table, rows whose other children have no content: empty mrow, mphantom, blank mtext, mspace) inside x = HOST whose operands are distinct decimal literals carrying arg=a,b,c; both values of IntentErrorRecovery; oracle = no panic; IgnoreIntent: speech is Ok, and for strings that a reference recogniser classifies as certainly illegal (blank, unbalanced parentheses, punctuation where a name must start, missing argument, $ without name, dangling $ref) it equals the speech with the attribute removed; Error: certainly illegal strings yield Err; honoured form: speech mentions the name and every referenced literal; speech is repeatable and get_navigation_mathml afterwards equals the MathML returned by set_mathml; non-trivial = illegal with >= 2 structural characters, or legal with a $ref inside an application".into()
     }
 }
